@@ -79,8 +79,34 @@ pub fn panic_to_fail(cur_op: &str, step: usize, drift_tainted: bool) -> Result<F
     })
 }
 
+/// Compact, readable rendering of a case: prefix references are resolved against the universe
+/// (`0101` = network bits, `*` = zero-length prefix, `~h` = given with host bits set).
 pub fn render_case(c: &Case, uni_w: u8) -> String {
     let uni = build_universe(&c.usteps, uni_w);
+    fn walk(v: &mut serde_json::Value, uni: &[crate::model::Raw], w: u8) {
+        match v {
+            serde_json::Value::Object(m) => {
+                if m.len() == 2 && m.contains_key("i") && m.contains_key("noise") {
+                    let i = m["i"].as_u64().unwrap_or(0) as u16;
+                    let noise = m["noise"].as_u64().unwrap_or(0) as u8;
+                    let r = crate::ops::resolve(uni, crate::ops::PRef { i, noise }, w);
+                    *v = serde_json::Value::String(format!("{}{}", r.key().show(), if noise != 0 { "~h" } else { "" }));
+                    return;
+                }
+                if m.len() == 2 && m.contains_key("bits") && m.contains_key("len") {
+                    let bits = u128::from_str_radix(m["bits"].as_str().unwrap_or("0"), 16).unwrap_or(0);
+                    let len = m["len"].as_u64().unwrap_or(0) as u8;
+                    *v = serde_json::Value::String(crate::model::Key::new(bits, len).show());
+                    return;
+                }
+                for (_, x) in m.iter_mut() {
+                    walk(x, uni, w);
+                }
+            }
+            serde_json::Value::Array(a) => a.iter_mut().for_each(|x| walk(x, uni, w)),
+            _ => {}
+        }
+    }
     let mut s = format!(
         "type={} universe=[{}] ops=[",
         c.ptype,
@@ -90,8 +116,11 @@ pub fn render_case(c: &Case, uni_w: u8) -> String {
         if i > 0 {
             s.push_str("; ");
         }
-        s.push_str(&format!("{:?}", o));
-        if s.len() > 1500 {
+        let mut v = serde_json::to_value(o).unwrap_or_default();
+        walk(&mut v, &uni, uni_w);
+        let txt = v.to_string().replace('"', "");
+        s.push_str(&txt);
+        if s.len() > 1800 {
             s.push_str(" ...");
             break;
         }
